@@ -61,7 +61,12 @@ def invalid_weaver_ops(wv):
         ("unknown-rule", "target", lambda w: w.integral_match(target_function_integral_method="simpson")),
         ("unknown-rule", "reference", lambda w: w.integral_match(reference_function_integral_method="midpoint")),
         ("unknown-search-strategy", "integral_match", lambda w: w.integral_match(fixed_points_finding_strategy="nearest")),
+        ("unknown-rule", "target+one-fixed-point", lambda w: w.integral_match(target_function_integral_method="simpson", fixed_points_in_x=[x0])),
+        ("unknown-rule", "target+one-fixed-index", lambda w: w.integral_match(target_function_integral_method="simpson", fixed_points_indices_in_x=[0])),
+        ("unknown-rule", "reference+one-fixed-point", lambda w: w.integral_match(reference_function_integral_method="simpson", fixed_points_in_x=[x0])),
         ("fixed-point-not-a-sample", "positions", lambda w: w.integral_match(fixed_points_in_x=[x0, absent, x1])),
+        ("fixed-point-not-a-sample", "one-ulp-off", lambda w: w.integral_match(fixed_points_in_x=[x0, float(np.nextafter(gl[n // 2], np.inf)), x1])),
+        ("fixed-point-not-a-sample", "relative-1e-13-off", lambda w: w.integral_match(fixed_points_in_x=[x0, gl[n // 2] * (1 + 1e-13) if gl[n // 2] else 1e-300, x1])),
         ("too-many-fixed-points", "positions", lambda w: w.integral_match(fixed_points_in_x=gl + [x1 + 1.0])),
         ("too-many-fixed-points", "indices", lambda w: w.integral_match(fixed_points_indices_in_x=list(range(n)) + [0])),
         ("unknown-interpolation-method", "n", lambda w: w.interpolate(n=5, method="quadratic")),
@@ -157,6 +162,8 @@ def _fn_cases():
     add("unknown-dataset", "load_dataset", lambda x, y: __import__("traffic_weaver.datasets", fromlist=["x"]).load_dataset("no_such_dataset"))
     add("unknown-dataset", "sandvine-prefix", lambda x, y: __import__("traffic_weaver.datasets", fromlist=["x"]).load_dataset("sandvine_nothing"))
     add("fixed-point-not-a-sample", "positions", lambda x, y: M().integral_matching_reference_stretch(_fine(x), _fine_y(x, y), np.array(x), np.array(y), fixed_points_in_x=[x[0], x[0] + (x[1] - x[0]) * 0.3, x[-1]]))
+    add("fixed-point-not-a-sample", "one-ulp-off", lambda x, y: M().integral_matching_reference_stretch(_fine(x), _fine_y(x, y), np.array(x), np.array(y), fixed_points_in_x=[x[0], float(np.nextafter(x[1], np.inf)), x[-1]]))
+    add("unknown-rule", "target+single-fixed-point", lambda x, y: M().integral_matching_reference_stretch(_fine(x), _fine_y(x, y), np.array(x), np.array(y), target_function_integral_method="simpson", fixed_points_in_x=[x[0]]))
     add("too-many-fixed-points", "positions", lambda x, y: M().integral_matching_reference_stretch(_fine(x), _fine_y(x, y), np.array(x), np.array(y), fixed_points_in_x=list(_fine(x)) + [x[-1] + 1]))
     add("too-many-fixed-points", "indices", lambda x, y: M().integral_matching_reference_stretch(_fine(x), _fine_y(x, y), np.array(x), np.array(y), fixed_points_indices_in_x=list(range(len(_fine(x)))) + [0]))
     add("truncation-range", "equal", lambda x, y: P().truncate(np.array(x), np.array(y), x[1], x[1]))
